@@ -139,6 +139,18 @@ def make_replay(eng, prop: str, oid: str, instances, repo: str, seed: int) -> di
 
 def replay_file(prop: str, path: str, repo: str) -> int:
     rec = json.load(open(path if os.path.isabs(path) else os.path.join(ROOT, path)))
+    if rec.get("bounded_check"):
+        # failure found by a bounded stand-in: run that stand-in again on this tree and look for the same signature
+        sig = rec["obligation"].split(" / ", 1)[1] if " / " in rec["obligation"] else ""
+        res = native(rec["script"], {"mode": "bounded", "name": rec["bounded_check"], "tier": "quick",
+                                     "seed": int(os.environ.get("VERIF_SEED", "0") or 0), "args": rec.get("args", {})}, repo, timeout=900)
+        hit = [f for f in res.get("failures", []) if f.get("signature") == sig]
+        print(json.dumps(hit or res)[:1500])
+        if hit:
+            print(f"VIOLATION property={prop} replay={path}")
+            return 1
+        print("not reproduced on this tree")
+        return 0
     job = rec.get("native_job")
     if not job:
         print(f"replay file carries no native input ({rec.get('note', '')}); obligation: {rec['obligation']}")
